@@ -50,6 +50,7 @@ type mqLabel struct {
 type mqCase struct {
 	Univ   []uint64  `json:"univ"`
 	Labels []mqLabel `json:"labels"`
+	Dedup  bool      `json:"dedup,omitempty"` // every request in its own dedup bucket (DedupKey): a link shared by two requests is sent for each
 	Tags   []string  `json:"tags,omitempty"`
 }
 
@@ -247,6 +248,10 @@ func runMqCase(c mqCase) (labelTerms []string, obsTerms []string, sawError bool,
 		case "build":
 			var ops []string
 			s := stream(l.R)
+			if c.Dedup {
+				// (re)assign the request's own dedup bucket: a finished request loses its key
+				s.DedupKey(fmt.Sprintf("bucket-%d", l.R))
+			}
 			_ = s.Transaction(func(rb responseassembler.ResponseBuilder) error {
 				for _, b := range l.Blocks {
 					lk := mkLink(b.L)
@@ -402,6 +407,11 @@ func genMqCase(r *rng.R) mqCase {
 	}
 	n := r.Range(2, 14)
 	link := uint64(0)
+	// a quarter of the cases: every request has its own dedup bucket and requests traverse common blocks, so
+	// that one unsent message receives the same block (same CID) more than once
+	c.Dedup = nreq >= 2 && r.P(1, 3)
+	poolSize := map[uint64]uint64{}
+	used := map[uint64]map[uint64]bool{}
 	inCall := false // approximate: the generator does not know exactly; "net" labels with nothing blocked are skipped
 	big := r.P(1, 4)
 	for i := 0; i < n; i++ {
@@ -416,7 +426,22 @@ func genMqCase(r *rng.R) mqCase {
 				if big && r.P(1, 2) {
 					size = uint64(r.Range(150000, 400000))
 				}
-				l.Blocks = append(l.Blocks, mqBlock{L: link, Size: size, Has: r.P(5, 6)})
+				lk := link
+				if c.Dedup && r.P(2, 3) {
+					// a block from the common pool (links 1001..1004, fixed size each) this request has not used yet
+					cand := uint64(1001 + r.Intn(2))
+					if used[l.R] == nil {
+						used[l.R] = map[uint64]bool{}
+					}
+					if !used[l.R][cand] {
+						used[l.R][cand] = true
+						if poolSize[cand] == 0 {
+							poolSize[cand] = size
+						}
+						lk, size = cand, poolSize[cand]
+					}
+				}
+				l.Blocks = append(l.Blocks, mqBlock{L: lk, Size: size, Has: lk > 1000 || r.P(5, 6)})
 			}
 			if r.P(1, 4) {
 				l.Ext = r.Range(1, 300)
@@ -537,6 +562,9 @@ func driveMsgQueue(c *ctx) error {
 		}
 		if shut {
 			tags = append(tags, "has-shutdown")
+		}
+		if r.mc.Dedup {
+			tags = append(tags, "dedup-buckets-common-blocks")
 		}
 		term := fmt.Sprintf("Build_qcase %s\n    %s\n    %s", cw.NList(r.mc.Univ), cw.List(r.labels), cw.List(r.obs))
 		r.mc.Tags = tags
